@@ -1545,6 +1545,9 @@ func genOp17(g *Rng, k *types.Kustomization, present []string, adversarial bool)
 	o := c17Op{Kind: kind}
 	pathArg := func(existing []string) string {
 		switch n := g.Intn(100); {
+		case n < 6:
+			// the kustomization file itself (add resource/component must skip it), or a glob catching it
+			return g.Pick([]string{"kustomization.yaml", "kustomization.yml", "Kustomization", "*.yaml", "*", "?ustomization*"})
 		case n < 55:
 			return c17ExistingOr(g, existing, c17ResNames)
 		case n < 85:
